@@ -702,6 +702,21 @@ def write_evidence(prop, cfg, tier, seed, names, discharged, axioms_seen, stream
         "known_findings_hit": [k["id"] for k, _ in known_hits],
         "notes": notes,
     }
+    # which regenerated definitions the property's theorems speak about (if any)
+    try:
+        src_path = os.path.join(LEAN, "P2PVerif", "Gen", "Src.lean")
+        prop_src = open(os.path.join(LEAN, "P2PVerif", "Props", prop + ".lean")).read()
+        if "src_" in prop_src and os.path.exists(src_path):
+            src_txt = open(src_path).read()
+            defs = re.findall(r"^def (\S+)", src_txt, re.M)
+            cov["regenerated_definitions"] = {
+                "translator": "harness/cmd/go2lean (run against %s on this run)" % REPO,
+                "count": len(defs), "sha256": hashlib.sha256(src_txt.encode()).hexdigest(),
+                "used_by_theorems": sorted(set(n for n, _ in names if ".src_" in n)),
+                "functions": defs,
+            }
+    except OSError:
+        pass
     if cfg.get("exploration"):
         cov["exploration_only"] = cfg["exploration"]
     evd = {
